@@ -194,7 +194,23 @@ def run(case):
                     "r2s": r2, "s2r": s2, "smp": smp}
         if k == "call":
             sup = mk_sup(tb, case["sup"])
-            return {"obs": [tb.us(x) for x in w(sup, align_last=case["align"])]}
+            obs = [tb.us(x) for x in w(sup, align_last=case["align"])]
+            # the positions depend on the support and on (duration, step) only: not on the window's own start / end
+            bounds = [v for x in ([sup] if not hasattr(sup, "extent") else list(sup)) for v in (x.start, x.end)]
+            if bounds:
+                lo, hi = min(bounds), max(bounds)
+                for st_, en_ in ((kw["start"], (lo + hi) / 2), (kw["start"], hi + t(3)), (lo - t(5), lo + t(1)), (lo - t(9), lo - t(2)),
+                                 (hi + t(1), None), ((lo + hi) / 2, hi)):
+                    kw2 = dict(kw, start=st_)
+                    if en_ is not None:
+                        kw2["end"] = en_
+                    try:
+                        w2 = SlidingWindow(**kw2)
+                    except ValueError:
+                        continue
+                    got = [tb.us(x) for x in w2(sup, align_last=case["align"])]
+                    assert got == obs, "window(support) depends on the window's own start / end (%r, %r): %r vs %r" % (st_, en_, got, obs)
+            return {"obs": obs}
     finally:
         tb.leave()
 
